@@ -54,21 +54,23 @@ Definition header_words (c : config) : nat :=
 (* ------------------------------------------------------------------ 2a. method cache (Type.c) *)
 
 (* A type object: the cache slots in front (CELLO_CACHE_HEADER, filled lazily) and the instance list
-   `{class name, instance}` that Type_Scan walks.  An instance is an abstract identity. *)
+   `{class, instance}` that Type_Scan walks.  A class is its number (position in the class
+   declarations of Cello.h, Generated.cfg_class_names); an instance is an abstract identity. *)
 Definition inst := nat.
-Record tyobj := mkTy { tslots : list (option inst); tinsts : list (string * inst) }.
+Definition cls := nat.
+Record tyobj := mkTy { tslots : list (option inst); tinsts : list (cls * inst) }.
 Definition types := list tyobj.
 
 (* Type_Scan(self, cls): first entry of the instance list for that class, NULL when absent *)
-Fixpoint scan (l : list (string * inst)) (c : string) : option inst :=
+Fixpoint scan (l : list (cls * inst)) (c : cls) : option inst :=
   match l with
   | [] => None
-  | (n, i) :: t => if String.eqb n c then Some i else scan t c
+  | (n, i) :: t => if Nat.eqb n c then Some i else scan t c
   end.
 
 (* the Type_Cache_Entry(slot, Class) lines of Type_Instance (Generated.cfg_cache_wiring) *)
-Definition slot_of (c : string) : option nat :=
-  match find (fun w : nat * string => String.eqb (snd w) c) cfg_cache_wiring with
+Definition slot_of (c : cls) : option nat :=
+  match find (fun w : nat * nat => Nat.eqb (snd w) c) cfg_cache_wiring with
   | Some w => Some (fst w)
   | None => None
   end.
@@ -81,7 +83,7 @@ Fixpoint set_slot (l : list (option inst)) (i : nat) (v : option inst) : list (o
   end.
 
 (* Type_Instance(self, cls) under CELLO_CACHE == 1 / 0 *)
-Definition lookup (cached : bool) (t : tyobj) (c : string) : tyobj * option inst :=
+Definition lookup (cached : bool) (t : tyobj) (c : cls) : tyobj * option inst :=
   if cached then
     match slot_of c with
     | Some i =>
@@ -102,13 +104,13 @@ Fixpoint set_type (T : types) (n : nat) (t : tyobj) : types :=
   | x :: r, S m => x :: set_type r m t
   end.
 
-Definition lookup_in (cached : bool) (T : types) (ty : nat) (c : string) : types * option inst :=
+Definition lookup_in (cached : bool) (T : types) (ty : nat) (c : cls) : types * option inst :=
   match nth_error T ty with
   | Some t => let '(t', r) := lookup cached t c in (set_type T ty t', r)
   | None => (T, None)
   end.
 
-Definition scan_in (T : types) (ty : nat) (c : string) : option inst :=
+Definition scan_in (T : types) (ty : nat) (c : cls) : option inst :=
   match nth_error T ty with
   | Some t => scan (tinsts t) c
   | None => None
@@ -147,7 +149,7 @@ Section Interp.
   | Get (k : St -> prog)
   | Put (s : St) (k : prog)
   | Chk (sw : switch) (b : bool) (e : xexn) (k : prog)
-  | Disp (ty : nat) (cl : string) (k : option inst -> prog).
+  | Disp (ty : nat) (cl : cls) (k : option inst -> prog).
 
   Fixpoint run (c : config) (p : prog) (s : St) (T : types) : St * types * outcome :=
     match p with
@@ -306,7 +308,7 @@ Definition afires (h : list aop) (s : aseq) := history_fires aseq Z aop abody h 
 
 (* a second small API that does dispatch: `len`-like and `hash`-like calls on an object of type `ty`,
    each a method lookup followed by a METHOD check (Type_Method_At_Offset) *)
-Inductive dop := DCall (ty : nat) (cl : string).
+Inductive dop := DCall (ty : nat) (cl : cls).
 
 Definition dbody (o : dop) : prog unit nat :=
   match o with
@@ -317,7 +319,15 @@ Definition dbody (o : dop) : prog unit nat :=
   end.
 
 (* all slots empty: a type object as the C initialiser CELLO_CACHE_HEADER leaves it *)
-Definition fresh_type (insts : list (string * inst)) : tyobj := mkTy (repeat None cello_cache_num) insts.
+(* class number of a class name (for reading examples; not used by the interpreter) *)
+Fixpoint index_str (l : list string) (n : string) (k : nat) : option nat :=
+  match l with
+  | [] => None
+  | x :: t => if String.eqb x n then Some k else index_str t n (S k)
+  end.
+Definition cls_of (n : string) : option cls := index_str cfg_class_names n 0.
+
+Definition fresh_type (insts : list (cls * inst)) : tyobj := mkTy (repeat None cello_cache_num) insts.
 
 (* configuration-free specification: Python-like indexing on lists; None = outside the contract *)
 Definition wrap (i n : Z) : Z := if i <? 0 then n + i else i.
